@@ -29,7 +29,7 @@ def make_cases(rng, tier, n):
         consumers = {}
         for i, (sp, st) in enumerate(c["stages"]):
             for p, fl in st.get("in", []):
-                if p.startswith(b"src/"):
+                if p.startswith(b"src/") or b"_cfg/" in p:
                     srcs[i] = p
                     consumers.setdefault(p, set()).add(i)
         ops = [("run", False, [])]
